@@ -474,7 +474,7 @@ type rawLine struct {
 var clauseKeywords = map[string]bool{
 	"requires": true, "ensures": true, "assigns": true, "tags": true, "loop": true, "invariant": true,
 	"decreases": true, "ghost": true, "pure": true, "panics": true, "nosafety": true, "doc": true, "use": true, "by": true,
-	"assert": true, "unroll": true, "trigger": true, "establishes": true, "split": true, "implements": true, "defines": true, "generalizing": true, "hint": true, "measure": true,
+	"assert": true, "unroll": true, "trigger": true, "establishes": true, "split": true, "implements": true, "defines": true, "panicensures": true, "generalizing": true, "hint": true, "measure": true,
 }
 
 var topKeywords = map[string]bool{"macro": true, "func": true, "trusted": true, "spec": true, "axiom": true, "lemma": true, "ghostfield": true, "sentinel": true, "immutable": true, "consttable": true, "globalinv": true, "onlycalledfrom": true, "constfield": true, "typeinv": true, "storedonlyin": true}
@@ -789,6 +789,12 @@ func Parse(path, src string) (*File, error) {
 					cur.Assigns = append(cur.Assigns, es...)
 					cur.HasAssigns = true
 				}
+			case first == "panicensures":
+				c, err := mkClause(rest)
+				if err != nil {
+					return nil, fail(l, err)
+				}
+				cur.PanicEnsures = append(cur.PanicEnsures, c)
 			case first == "defines":
 				c, err := mkClause(rest)
 				if err != nil {
